@@ -57,6 +57,7 @@ enum Op {
     GetCall,      // get_function on the thread's own package (registry lock points), call, drop
     CompileCall,  // compile on the SHARED runtime, get, call, drop package and handle (hot reload)
     DropPkg,      // drop the package the shared handles came from
+    CompileConst, // compile a script whose CONSTANT INITIALISER calls a host function (a schedule point in the middle of a compilation), get, call
     FromChars,    // script: String.from_chars(shared List[char])
     SwapChars,    // Rust: swap(0, 2) on the shared List[char]
     Join,         // script: shared List[String].join("-")
@@ -80,7 +81,8 @@ const MENU_PAIRS: [Op; 4] = [Op::EqAB, Op::EqBA, Op::CatAB, Op::CatBA];
 /// a `StringBuf` held in a script constant is interior-mutable state shared by every
 /// thread that calls into the package
 const MENU_SB: [Op; 4] = [Op::SbPush, Op::SbRead, Op::SbEqAB, Op::SbEqBA];
-const MENU_FULL: [Op; 8] = [
+const MENU_FULL: [Op; 9] = [
+    Op::CompileConst,
     Op::CallF,
     Op::CallT,
     Op::CallS,
@@ -260,6 +262,20 @@ fn run_op(
             let want = (x + k as i32) * 2 + 9;
             if got != want {
                 return Err(format!("reloaded g({x}) = {got}, expected {want}"));
+            }
+        }
+        // host code runs while the compiler is at work: whatever the compiler holds at that
+        // moment (seeded change C12-6: a process-wide lock around code generation) is held
+        // across the schedule point
+        Op::CompileConst => {
+            let src = format!("const KC: i32 = ye(7);\nfn g(x: i32) -> i32 {{ let a = x + {k}; a * 2 + KC }}\n");
+            let mut pkg = host::compile(rt, &src).map_err(|e| format!("{e:?}"))?;
+            let g: TypedFunc<NoCtx, fn(i32) -> i32> = pkg.get_function("g").map_err(|e| e.to_string())?;
+            drop(pkg);
+            let got = g.call(x);
+            let want = (x + k as i32) * 2 + 7;
+            if got != want {
+                return Err(format!("g({x}) with a constant initialised by a host call = {got}, expected {want}"));
             }
         }
         Op::DropPkg => {
@@ -577,7 +593,7 @@ impl Check for C12 {
         all_programs(cfg.tier).len().div_ceil(PER_UNIT) + 2 + registry::histories(cfg.tier).len().div_ceil(REG_PER_UNIT)
     }
     fn case_timeout_s(&self, cfg: &Cfg) -> f64 {
-        cfg.tier.pick(240.0, 600.0)
+        cfg.tier.pick(120.0, 600.0)
     }
     fn preflight(&self, _cfg: &Cfg) -> Result<(), String> {
         c00sched::self_test()
